@@ -42,7 +42,7 @@ assume pure func (v reflect.Value) Interface() interface{}
 -- (Sprint -> Sprintln, EscapeMarkers -> StripMarkers) must fail here.
 func Sprint(args ...interface{}) (s RedactableString)
   may-panic
-  modifies alloc, memU, fdp, fdk, fdar, fdao, fdal, fdf, fdfl
+  modifies alloc, memU, fdp, fdk, fdar, fdao, fdal, fdf, fdfl, fdw
   ensures [C01] WF(s, len(s), false) && clean(s, len(s))
   ensures [C03] LS(s, len(s))
   ensures [C08,C16] Routed(1, args)
@@ -50,20 +50,23 @@ func Sprint(args ...interface{}) (s RedactableString)
 func Sprintf(format string, args ...interface{}) (s RedactableString)
   public format
   may-panic
-  modifies alloc, memU, fdp, fdk, fdar, fdao, fdal, fdf, fdfl
+  modifies alloc, memU, fdp, fdk, fdar, fdao, fdal, fdf, fdfl, fdw
   ensures [C01] WF(s, len(s), false) && clean(s, len(s))
   ensures [C03] LS(s, len(s))
   ensures [C08,C16] Routed(2, args) && sameView(fdf, format) && fdfl == len(format)
+  -- only HelperForErrorf accepts %w
+  ensures [C15,C16] !fdw
 
 func HelperForErrorf(format string, args ...interface{}) (s RedactableString, err error)
   public format
   may-panic
-  modifies alloc, memU, fdp, fdk, fdar, fdao, fdal, fdf, fdfl, gnwOut, ggoodOut, gerrOut
+  modifies alloc, memU, fdp, fdk, fdar, fdao, fdal, fdf, fdfl, fdw, gnwOut, ggoodOut, gerrOut
   ensures [C15] gnwOut == 1 && ggoodOut ==> err == gerrOut && !isnil(err)
   ensures [C15] !(gnwOut == 1 && ggoodOut) ==> isnil(err)
   ensures [C01] WF(s, len(s), false) && clean(s, len(s))
   ensures [C03] LS(s, len(s))
   ensures [C15,C16] Routed(2, args) && sameView(fdf, format) && fdfl == len(format)
+  ensures [C15,C16] fdw
 
 func Sprintfn(printer func(w SafePrinter)) (s RedactableString)
   may-panic
@@ -73,7 +76,7 @@ func Sprintfn(printer func(w SafePrinter)) (s RedactableString)
 
 func Fprint(w io.Writer, args ...interface{}) (n int, err error)
   may-panic
-  modifies alloc, memU, wcount, wlast, wlen, wn, werr, fdp, fdk, fdar, fdao, fdal, fdf, fdfl
+  modifies alloc, memU, wcount, wlast, wlen, wn, werr, fdp, fdk, fdar, fdao, fdal, fdf, fdfl, fdw
   ensures [C16] wcount == old(wcount) + 1 && n == wn && err == werr
   ensures [C01] WF(wlast, wlen, false)
   ensures [C03] LS(wlast, wlen)
@@ -82,11 +85,12 @@ func Fprint(w io.Writer, args ...interface{}) (n int, err error)
 func Fprintf(w io.Writer, format string, args ...interface{}) (n int, err error)
   public format
   may-panic
-  modifies alloc, memU, wcount, wlast, wlen, wn, werr, fdp, fdk, fdar, fdao, fdal, fdf, fdfl
+  modifies alloc, memU, wcount, wlast, wlen, wn, werr, fdp, fdk, fdar, fdao, fdal, fdf, fdfl, fdw
   ensures [C16] wcount == old(wcount) + 1 && n == wn && err == werr
   ensures [C01] WF(wlast, wlen, false)
   ensures [C03] LS(wlast, wlen)
   ensures [C16] Routed(2, args) && sameView(fdf, format) && fdfl == len(format)
+  ensures [C15,C16] !fdw
 
 func EscapeMarkers(s []byte) (r []byte)
   modifies rxre, rxsrc, rxsrcl, rxrepl, rxrepll, rxres, rxresl, alloc
@@ -131,7 +135,7 @@ func RedactedMarker() (r []byte)
 -- the text of a SafeFormatter without its markers: Sprint, then StripMarkers
 func StringWithoutMarkers(f SafeFormatter) (r string)
   may-panic
-  modifies alloc, memU, fdp, fdk, fdar, fdao, fdal, fdf, fdfl, rxre, rxsrc, rxsrcl, rxrepl, rxrepll, rxres, rxresl
+  modifies alloc, memU, fdp, fdk, fdar, fdao, fdal, fdf, fdfl, fdw, rxre, rxsrc, rxsrcl, rxrepl, rxrepll, rxres, rxresl
   ensures [C07] !m.ReStripMarkers.MatchString(r)
   ensures [C16] fdp == 1 && fdk == 1 && fdal == 1
 
